@@ -13,10 +13,7 @@
      by the digits of key[1:] (the Python never looks at key[0] unless the name resolves to a blade);
      characters that are not hex digits are encoded by the caller as numbers that are no generator;
    - an attribute name is [SName n] when it matches  ^e[0-9a-fA-F]*$  (n = its digits), else [SOther].
-   Two details of Algebra._blade2canon that Model/Alg.v [blade2canon] abstracts away are kept here,
-   because they are observable:  (1) _swap_blades is called on the names WITH their leading letter 'e',
-   which is also the hex digit 14;  (2) a name outside the algebra is mapped to the string f'e{2**d}',
-   which is then looked up in canon2bin like any other name. *)
+   Algebra._blade2canon is Model/Alg.v [blade2canon]: (Some canonical name | None = outside the algebra, swaps). *)
 From KV Require Export Model.All.
 Local Open Scope Z_scope.
 
@@ -55,37 +52,6 @@ Fixpoint mapM_res {X Y} (f : X -> res Y) (l : list X) : res (list Y) :=
 
 Definition isnil {X} (l : list X) : bool := match l with [] => true | _ => false end.
 
-(* ---- str(2 ** d): decimal digits, most significant first ---- *)
-Fixpoint dec_digits_fuel (fuel : nat) (n : Z) (acc : list nat) : list nat :=
-  match fuel with
-  | O => acc
-  | S f => if n <? 10 then Z.to_nat n :: acc
-           else dec_digits_fuel f (n / 10) (Z.to_nat (n mod 10) :: acc)
-  end.
-Definition fallback_name (A : alg) : name := dec_digits_fuel (S (a_d A)) (alg_len A) [].
-
-Definition letter_e : nat := 14%nat.      (* the first character of every blade name, as a hex digit *)
-
-(* Algebra._blade2canon(basis_blade) -> (canonical name or f'e{2**d}', swaps) *)
-Definition blade2canon_py (A : alg) (n : name) : res (name * Z) :=
-  match canon2bin A n with
-  | Some _ => Ok (n, 0)
-  | None =>
-      match n with
-      | [] => Err EType                                  (* reduce() of an empty sequence *)
-      | _ =>
-          let b := fold_left (fun acc g => Z.lor acc (gen_bin A g)) n 0 in
-          match bin2canon A b with
-          | Some c =>
-              match swap_blades (letter_e :: n) [] (letter_e :: c) with
-              | Some (sw, _, _) => Ok (c, sw)
-              | None => Err EValue                       (* blade1.index(char) *)
-              end
-          | None => Ok (fallback_name A, 0)
-          end
-      end
-  end.
-
 Section Construct.
   Context {R : Type}.
   Variable O : ops R.
@@ -98,16 +64,19 @@ Section Construct.
     match s with
     | SOther => Err EAttr
     | SName n =>
-        '(c, sw) <- blade2canon_py A n ;;
-        match canon2bin A c with
-        | None => Ok (o_zero O)
-        | Some b =>
-            match zindex b (keys m) with
+        match blade2canon A n with
+        | (None, _) => Ok (o_zero O)                       (* None not in canon2bin *)
+        | (Some c, sw) =>
+            match canon2bin A c with
             | None => Ok (o_zero O)
-            | Some idx =>
-                match nth_error (map snd m) idx with
-                | Some v => Ok (if Z.even sw then v else o_neg O v)
-                | None => Err EIndex
+            | Some b =>
+                match zindex b (keys m) with
+                | None => Ok (o_zero O)
+                | Some idx =>
+                    match nth_error (map snd m) idx with
+                    | Some v => Ok (if Z.even sw then v else o_neg O v)
+                    | None => Err EIndex
+                    end
                 end
             end
         end
@@ -145,9 +114,12 @@ Section Construct.
     match canon2bin A k with
     | Some _ => Ok d
     | None =>
-        '(target, swaps) <- blade2canon_py A k ;;
-        v <- of_opt EKey (nassoc k d) ;;                           (* items.pop(key) *)
-        Ok (nset target (if Z.odd swaps then o_neg O v else v) (nremove k d))
+        match blade2canon A k with
+        | (None, _) => Err EKey                                    (* if target is None: raise KeyError *)
+        | (Some target, swaps) =>
+            v <- of_opt EKey (nassoc k d) ;;                       (* items.pop(key) *)
+            Ok (nset target (if Z.odd swaps then o_neg O v else v) (nremove k d))
+        end
     end.
 
   (* keys, values = zip( * ((blade, items[blade]) for blade in algebra.canon2bin if blade in items)) *)
@@ -220,7 +192,13 @@ Section Construct.
     (* the kind of input *)
     '(keysk, values) <-
        (match values0 with
-        | VMap mp => Ok (map fst mp, map snd mp)
+        | VMap mp =>
+            if a_graded A && negb (isnil mp) then
+              (* the keys only become known here: converted unconditionally, compared with their own grades *)
+              zs <- mapM_res conv_key (map fst mp) ;;
+              full <- ifg (grades_of_keys zs) ;;
+              if list_eqb Z.eqb zs full then Ok (map KInt zs, map snd mp) else Err EValue
+            else Ok (map fst mp, map snd mp)
         | _ =>
             let vs := match values0 with VList l => l | _ => [] end in
             full <- ifg grades ;;
